@@ -105,7 +105,7 @@ def gen(rng, tier):
             'offset': offset, 'offset_cls': offset_cls, 'wrap': wrap, 'pos': pos, 'weights': weights,
             'classes': sorted(classes), 'nthread': nthread,
             'npartition': None if rng.random() < 0.7 else rng.randrange(1, max(2, shape[0] // 3 + 1)),
-            'coord': rng.choice([0, 0, 1, 2]), 'accumulate': rng.random() < 0.3, 'gseed': rng.randrange(1 << 20),
+            'coord': rng.choice([0, 0, 1, 2]), 'sort': rng.random() < 0.25, 'accumulate': rng.random() < 0.3, 'gseed': rng.randrange(1 << 20),
             'sched': gen_sched(rng), 'poison': rng.choice(['A', 'B'])}
 
 
@@ -192,7 +192,7 @@ def run(case):
             grid = g0.copy()
             r = mod.tsc_parallel(pos.copy(), grid, box, weights=None if weights is None else weights.copy(),
                                  nthread=nthread, wrap=case['wrap'], npartition=npart, coord=case['coord'],
-                                 offset=offset)
+                                 sort=case.get('sort', False), offset=offset)
             return r
         res, exc, summ = H.run(lambda: call(tsc, case['nthread'], case['npartition']), s, poison=case['poison'])
         out['steps'] = summ['steps']
